@@ -44,6 +44,21 @@ pub fn check(case: &Case) -> Outcome {
         out.class("skipped:encode-failed(C01)");
         return out;
     };
+    // a caller may overwrite the frame-size bounds after assembling (0, 0 = unknown, or conservative bounds)
+    match b.inp.seed % 5 {
+        0 => {
+            let _ = stream.stream_info_mut().set_frame_sizes(0, 0);
+            out.class("frame-sizes-set-by-caller:unknown");
+        }
+        1 => {
+            let (lo, hi) = (stream.stream_info().min_frame_size(), stream.stream_info().max_frame_size());
+            if lo <= hi && hi < (1 << 23) {
+                let _ = stream.stream_info_mut().set_frame_sizes(lo / 2, hi * 2 + 7);
+                out.class("frame-sizes-set-by-caller:conservative-bounds");
+            }
+        }
+        _ => {}
+    }
     for (tag, len) in &case.meta {
         if let Ok(m) = MetadataBlockData::new_unknown(*tag, &vec![0xA5u8; *len]) {
             stream.add_metadata_block(m);
@@ -252,6 +267,43 @@ pub fn check(case: &Case) -> Outcome {
                 return out;
             }
         }
+        // one parser object used again after calls that failed (truncated input: in the header, inside the first /
+        // the last subframe, in front of the CRC; a corrupted CRC): the next call must behave like a fresh parser
+        if n < 3 {
+            let mut bad = fb.clone();
+            let last = bad.len() - 1;
+            bad[last] ^= 0x55;
+            let bad = bad;
+            let r = catch(|| {
+                let mut p = parser::frame::<E>(&info, true);
+                let mut fails = 0;
+                for cut in [3usize, fb.len() / 3, fb.len() / 2, fb.len() - 3, fb.len() - 1] {
+                    if cut < fb.len() && p(&fb[..cut]).is_err() {
+                        fails += 1;
+                    }
+                }
+                if p(&bad).is_err() {
+                    fails += 1;
+                }
+                let again = p(&fb).map(|(rest, fr)| (rest.len(), enc::frame_bytes(&fr, limit), fr.subframe_count())).map_err(|e| format!("{e:?}").chars().take(80).collect::<String>());
+                (fails, again)
+            });
+            match r {
+                Ok((fails, Ok((0, Ok(bytes2), nsub)))) if bytes2 == fb && nsub == f.subframe_count() => {
+                    if fails > 0 {
+                        out.class("frame-parser-object-reused-after-failed-calls");
+                    }
+                }
+                Ok((fails, other)) => {
+                    out.viol("frame-parser-object-reuse-differs", format!("frame {n}: after {fails} failed calls on the same parser object the next call gives {:?}; {ctxs}", other.map(|(rest, b, k)| (rest, b.map(|x| x.len()), k))));
+                    return out;
+                }
+                Err(p) => {
+                    out.viol(format!("frame-parser-panic:{}", normalise(&p.sig())), format!("{} at {}", p.msg, p.loc));
+                    return out;
+                }
+            }
+        }
         for c in 0..f.subframe_count() {
             let sf = f.subframe(c).unwrap();
             let bps = info.bits_per_sample() + f.header().channel_assignment().bits_per_sample_offset(c);
@@ -380,7 +432,7 @@ fn base_seed_even(b: &StreamCase) -> bool {
 
 pub fn run(ctx: &Ctx) {
     ctx.rule(
-        "cases = generated streams (all entry points, optional extra metadata blocks); oracle: parser::stream consumes all input, the tree verifies, re-serialises to identical bytes and decodes to the original samples; every frame and every subframe serialised alone round-trips through parser::frame / parser::subframe (consumed bits = count_bits); orders, precision, shift, coefficients, partition orders and Rice parameters agree with the harness' reference reader; family `assembled` re-heads frames of the frame-level entry point through Frame::into_parts / FrameHeader::new / Frame::new into variable-blocking streams whose block sizes change from frame to frame (the only way to obtain such streams from this library) with the same oracle; Decode::copy_signal into over-long buffers and signal_len agree with decode() for frames, subframes and residuals; a second family writes one frame (fixed blocking, frame number over the whole 31-bit range) or one header (variable blocking, start sample over the whole 36-bit range), boundary-dense, and parses it back; \
+        "cases = generated streams (all entry points, optional extra metadata blocks); oracle: parser::stream consumes all input, the tree verifies, re-serialises to identical bytes and decodes to the original samples; every frame and every subframe serialised alone round-trips through parser::frame / parser::subframe (consumed bits = count_bits); orders, precision, shift, coefficients, partition orders and Rice parameters agree with the harness' reference reader; family `assembled` re-heads frames of the frame-level entry point through Frame::into_parts / FrameHeader::new / Frame::new into variable-blocking streams whose block sizes change from frame to frame (the only way to obtain such streams from this library) with the same oracle; in two fifths of the cases the caller overwrites the frame-size bounds (unknown, or conservative bounds) before writing; one parser::frame object is called again after calls that failed on truncated / corrupted input; Decode::copy_signal into over-long buffers and signal_len agree with decode() for frames, subframes and residuals; a second family writes one frame (fixed blocking, frame number over the whole 31-bit range) or one header (variable blocking, start sample over the whole 36-bit range), boundary-dense, and parses it back; \
          non-trivial = (predictive subframe and bps != 16) or a frame with a non-trivial header code (explicit block size / sample rate, multi-byte frame number, stereo assignment)",
     );
     let per = ctx.tier.scale(1200, 10);
